@@ -50,14 +50,15 @@ def run(tier, rep):
         # (c)
         NP = 4 if thorough else 3
         fs = c09.files(sc, NP)
-        res = run_gosym(c09.cfg(fs, 'harnessC14Pattern', tier), sc, 'pattern', timeout=4 * 3600)
-        merge_gosym(rep, res, '(c) nfa.Parse on every string of <= %d bytes in 0x01..0x7F and the empty string' % NP)
+        res = run_gosym(c09.cfg(fs, 'harnessC14Pattern', tier, opaque_pkgs=['math/rand'], max_steps=80000000,
+                                init_pkgs=[c09.PKG, MODULE + '/internal/regex/parser', MODULE + '/internal/verif', 'github.com/moorara/algo/...', 'io']), sc, 'pattern', timeout=4 * 3600)
+        merge_gosym(rep, res, '(c) nfa.Parse and ToDFA with the real automata library on every string of <= %d bytes in 0x01..0x7F and the empty string' % NP)
         c09.handle(rep, res, fs, sc, prop='C14')
         # (e)
         c16.run_part(rep, sc, tier)
         rep.assumptions += [
             'bounds: %d input bytes, %d/%d tokens, %d pattern bytes; the command line against the environment model of C16' % (N, K, KS, NP),
             'pattern bytes >= 0x80 are not symbolic (the engine converts symbolic strings to runes only when ASCII); non-ASCII patterns are exercised concretely by the C02 corpus (bracket groups beyond ASCII)',
-            '"never returns success with a nil result" is asserted at each entry point; for patterns the automaton constructors are opaque under the engine, the C02/C10 dump driver observes the real results',
+            '"never returns success with a nil result" is asserted at each entry point; the pattern harness of this check runs the real automata library (github.com/moorara/algo/automata) under the interpreter',
             'hangs: a path that exhausts the step budget is reported as UNWIND (inconclusive), never as a pass',
         ]
